@@ -8,6 +8,10 @@ package quicutils
 // (BuiltinBytesLocator, which has no checks of its own) needs: callers must stay within Len().
 // LinearLocator moves an internal cursor, hence `modifies *` with Len() preserved.
 
+// locByte(l, k): byte k of the abstract byte sequence a locator stands for (a ghost attribute of the
+// locator value; the underlying bytes are assumed not to change while they are being sniffed).
+//@ specfn locByte(l Locator, k int) int
+
 //@ func (Locator).Len
 //@   pure
 //@   trusted
@@ -19,12 +23,14 @@ package quicutils
 //@   modifies *
 //@   ensures recv.Len() == old(recv.Len())
 //@   ensures err == nil ==> len(result0) == j - i
+//@   ensures err == nil ==> (forall k int {result0[k]} :: 0 <= k && k < j - i ==> result0[k] == locByte(recv, i + k))
 
 //@ func (Locator).At
 //@   trusted
 //@   requires 0 <= i && i < recv.Len()
 //@   modifies *
 //@   ensures recv.Len() == old(recv.Len())
+//@   ensures err == nil ==> result0 == locByte(recv, i)
 
 //@ func (Locator).Slice
 //@   trusted
